@@ -77,12 +77,9 @@ def run(ctx, crates):
     prog = ctx.prog
     cache = {}
     for fsuffix, cond, mincount, why, sinks in TABLE:
-        f = prog.fn(fsuffix)
-        if f is None:
-            # generic impls may print with extra generics; try suffix match
-            cn = fsuffix.lstrip("<").split("::")[0]
-            cands = [x for x in prog.crate(cn).fn_list if x.path == fsuffix] if cn in prog.crates else []
-            f = cands[0] if cands else None
+        if ("fn", fsuffix) not in cache:
+            cache[("fn", fsuffix)] = validation.resolve_closure_entry(prog, fsuffix, [(c_, n_) for f_, c_, n_, _w, _s in TABLE if f_ == fsuffix], "limit")
+        f = cache[("fn", fsuffix)]
         if f is None:
             ctx.anchor_missing(rid, fsuffix)
             continue
@@ -93,7 +90,7 @@ def run(ctx, crates):
         if ("mt", fsuffix) not in cache:
             cache[("mt", fsuffix)] = validation.match_table(cs, [(c_, n_) for f_, c_, n_, _w, _s in TABLE if f_ == fsuffix], validation.deep_ref("limit", fsuffix))
         have = cache[("mt", fsuffix)].get(cond, [])
-        key = "%s|%s" % (f.path, cond)
+        key = "%s|%s" % (fsuffix, cond)
         if len(have) >= mincount:
             ok = True
             for sk in sinks:
